@@ -267,7 +267,8 @@ func famC11(rn *Runner) {
 					}
 				}
 				// the document re-serialised with other prefixes (no namespace axis in the expression)
-				if rn.R.Chance(1, 3) && !strings.Contains(SxExpr(e), "(ax namespace") && !strings.Contains(SxExpr(e), "(nodes ") && !strings.Contains(env.Sx(), "(nodes (p") {
+				// (not from a namespace node: which namespace node a path denotes depends on the prefixes)
+				if rn.R.Chance(1, 3) && !strings.Contains(SxExpr(e), "(ax namespace") && !strings.Contains(SxExpr(e), "(nodes ") && !strings.Contains(env.Sx(), "(nodes (p") && !strings.Contains(start.String(), ".n") {
 					q3 := &QCase{Doc: d2, Start: start, Env: env, E: e, Text: q.Text, Family: "document-prefixes"}
 					r3, _ := rn.CheckQuery(q3, "invariant under re-serialising the document with other prefixes", func(res string) bool { return mb && res != "L" })
 					if r1 != r3 && !(strings.HasPrefix(r1, "E") && strings.HasPrefix(r3, "E")) && !rn.TooMany() {
